@@ -28,6 +28,24 @@ func FullLeaves() []*Node {
 	}
 }
 
+// ExtraLeaves are rarer leaf spellings: = instead of :, quoted and escaped field names,
+// single-quoted phrases, patterns as range bounds and comparison values, nested groups.
+func ExtraLeaves() []*Node {
+	sq := Value{Kind: VPhrase, S: "'x y'", Text: "'x y'"} // a single-quoted phrase keeps its quotes
+	return []*Node{
+		{Kind: KField, Field: Word("f"), Val: Word("b"), EqSign: true},
+		{Kind: KField, Field: Word("f"), Val: Int(-7), EqSign: true},
+		FV(Phrase("a field"), Word("v")), FV(Escaped("a field"), Int(3)), FV(Wild("w*"), Word("v")),
+		{Kind: KRange, Field: Phrase("r f"), Lo: Int(1), Hi: Open(), Incl: true},
+		Range("s", Wild("a*"), Regexp("/z/"), true), Range("s", Phrase("a b"), Escaped("c d"), false),
+		Cmp("n", ">", Wild("w*")), Cmp("s", "<=", Escaped("x:y")),
+		T(Escaped("a b")), F("f", Escaped("x:y")), T(sq), F("f", sq),
+		Group("g", Group("h", Or(T(Word("x")), T(Wild("y*"))))), Group("g", Must(T(Word("x")))), Group("g", FuzzyN(T(Word("x")), 2)),
+		Group("g", Range("n", Int(1), Int(5), true)), Group("g", And(F("h", Word("x")), Not(T(Int(2))))),
+		List("s", Escaped("a b"), Phrase("c"), Float("1.5")),
+	}
+}
+
 // QuickLeaves is a representative sub-alphabet.
 func QuickLeaves() []*Node {
 	return []*Node{
